@@ -331,6 +331,75 @@ def h_transport(ctx, cmd, set_name, transport, given):
                   deq(c.result, ctx.oracle_struct(want)))
 
 
+def h_reuse(ctx, cmd, set_name):
+    """the same command object executed and decoded a second time: its result is the decode of what the device left
+    in the buffer *this* time (nothing of the earlier answer survives)"""
+    from pyscsi.pyscsi.scsi import SCSI
+    spec = L.CDB[cmd]
+    cls = K.get_class(spec)
+    rec0 = _Dev(ctx, "-", None)
+    s = SCSI(rec0.dev, 512)
+    rec = _Dev(ctx, cmd, K.get_set(set_name))
+    s.device = rec.dev
+    st, c = ctx.attempt(K.facade_concrete_call, s, spec)
+    if st == "exc":
+        raise c
+    first = rec.snapshot
+    # second execution of the very same object: the device now answers with an empty (all-zero) response
+    rec.write = False
+    n = len(c.datain)
+    c.datain[0:n] = bytearray(n)
+    s.execute(c)
+    kw = {"evpd": 0} if cmd == "INQUIRY" else {}
+    st2, _ = ctx.attempt(c.unmarshall, **kw)
+    ctx.check("second decode succeeds or fails exactly like a fresh decode of the same bytes", True)
+    st3, want = ctx.attempt(cls.unmarshall_datain, c.datain[:], **kw)
+    if st2 == "ok" and st3 == "ok":
+        ctx.check("after re-execution the result is the decode of the new buffer content", deq(c.result, ctx.oracle_struct(want)),
+                  "%r vs %r" % (c.result, want))
+    else:
+        ctx.check("re-decode and fresh decode agree on failing", st2 == st3)
+    ctx.check("two commands reached the device", len(rec.seen) == ctx.oracle(2))
+
+
+def h_unconfigured(ctx, cmd, set_name):
+    """a facade created without a block size (commands that do not transfer blocks need none): still one command"""
+    from pyscsi.pyscsi.scsi import SCSI
+    spec = L.CDB[cmd]
+    rec = _Dev(ctx, cmd, K.get_set(set_name))
+    s = SCSI(_Dev(ctx, "-", None).dev)
+    s.device = rec.dev
+    if cmd == "WRITE SAME(16)":
+        st, c = ctx.attempt(s.writesame16, ctx.int("lba", 32), ctx.int("nb", 16), None, ndob=1)
+    else:
+        st, c = ctx.attempt(K.facade_concrete_call, s, spec)
+    if st == "exc":
+        raise c
+    ctx.check("no block size configured: exactly one command handed to the device", len(rec.seen) == ctx.oracle(1))
+    ctx.check("no block size configured: operation code is the command's", rec.seen[-1].cdb[0] == ctx.oracle(spec["opcode"]))
+
+
+def h_reattach(ctx, cmd, set_name):
+    """after s(dev2) every command goes to dev2 -- and only there"""
+    from pyscsi.pyscsi.scsi import SCSI
+    spec = L.CDB[cmd]
+    old = _Dev(ctx, "INQUIRY", None)
+    s = SCSI(old.dev, 512)
+    n_old = len(old.seen)
+    new = _Dev(ctx, "INQUIRY", None)
+    s(new.dev)
+    ctx.check("re-attach: the attach INQUIRY goes to the new device", len(new.seen) == ctx.oracle(1) and len(old.seen) == n_old)
+    new.dev.opcodes = K.get_set(set_name)
+    new.cmd = cmd
+    k = len(new.seen)
+    st, c = ctx.attempt(K.facade_concrete_call, s, spec)
+    if st == "exc":
+        raise c
+    ctx.check("re-attach: the command reaches the new device exactly once", len(new.seen) - k == ctx.oracle(1))
+    ctx.check("re-attach: the old device sees nothing any more", len(old.seen) == ctx.oracle(n_old))
+    ctx.check("re-attach: the new device saw the returned command", new.seen[-1] is c)
+
+
 def h_lookup(ctx, cmd, set_name):
     """the facade finds the command in every command set that defines it"""
     from pyscsi.pyscsi.scsi import SCSI
@@ -361,8 +430,18 @@ def obligations(tier):
         for i, st in enumerate(sets):
             obs.append(Ob("lookup/%s/%s" % (cmd, st), MOD, "h_lookup", {"cmd": cmd, "set_name": st}, canary=True))
             if i > 0 and tier == "quick":
+                # the other command sets that define the command: the call with every optional argument given
+                if opt:
+                    obs.append(Ob("call/%s/%s/given=%s" % (cmd, st, ",".join(opt)), MOD, "h_call",
+                                  {"cmd": cmd, "set_name": st, "given": list(opt)}))
                 continue
             obs.append(Ob("fail/%s/%s" % (cmd, st), MOD, "h_fail", {"cmd": cmd, "set_name": st}))
+            cls = K.get_class(spec)
+            if hasattr(cls, "unmarshall_datain") and spec["data"][0] == "in" and cmd not in ("READ(10)", "READ(12)", "READ(16)", "READ CD"):
+                obs.append(Ob("reuse/%s/%s" % (cmd, st), MOD, "h_reuse", {"cmd": cmd, "set_name": st}, canary=False))
+            if not any(k in ("blocksize", "blocksize-kw") for k in spec["extra"].values()) or cmd == "WRITE SAME(16)":
+                obs.append(Ob("unconfigured/%s/%s" % (cmd, st), MOD, "h_unconfigured", {"cmd": cmd, "set_name": st}, canary=False))
+            obs.append(Ob("reattach/%s/%s" % (cmd, st), MOD, "h_reattach", {"cmd": cmd, "set_name": st}, canary=False))
             for tr in ("sgio", "iscsi"):
                 for sub in ([], list(opt)):
                     obs.append(Ob("transport/%s/%s/%s/given=%s" % (tr, cmd, st, ",".join(sub) or "-"), MOD, "h_transport",
